@@ -78,6 +78,10 @@ def nested_elements():
         ("Element(additionalProperties=Nothing(), additionalItems=True)", lambda: Element(additionalProperties=Nothing(), additionalItems=True)),
         ("Element(additionalProperties=True, additionalItems=False)", lambda: Element(additionalProperties=True, additionalItems=False)),
         ("Element(items=Element(), contains=Element(), propertyNames=Element())", lambda: Element(items=Element(), contains=Element(), propertyNames=Element())),
+        ("keys with explicit sources equal to the key", lambda: Element(properties={"class_": Property(String(), source="class_"), "from_": Property(Integer(), source="from_"), "klass_": Property(Null(), source="klass_"), "": Property(Boolean(), source="")})),
+        ("keyword-like keys without sources", lambda: Element(properties={"class_": Property(String()), "from_": Property(Integer()), "_": Property(Null()), "": Property(Boolean())})),
+        ("keyword-like keys with the keyword as source", lambda: Element(properties={"class_": Property(String(), source="class"), "from_": Property(Integer(), source="from"), "x": Property(Null(), source="x_")})),
+        ("inline model with explicit sources equal to the key", lambda: Array(Object.inline("Kw", properties={"class_": Property(String(), source="class_"), "def_": Property(Integer(), source="def")}))),
         ("first holder of a re-used Property", lambda: _reused(0)),
         ("second holder of a re-used Property", lambda: _reused(1)),
         ("first holder of a re-used Property (same name)", lambda: _reused(0, "n", "n")),
